@@ -148,6 +148,7 @@ def check(ctx):
     C06.check_has_digest(ctx, 'C04.6')
     # worklist over call sites of node-constructing functions; wrappers that pass a parameter through are followed
     todo = list(ctors.values())
+    VALIDATING.clear()
     seen_fn = set()
     n_sites = 0
     while todo:
@@ -171,7 +172,8 @@ def check(ctx):
             if sv[0] == 'param':
                 # wrapper: follow to callers; its own guards (e.g. validity `all`) are judged below
                 ctx.ok('C04.1', site, 'assertion vector is parameter %d passed through: callers judged instead' % sv[1], nontrivial=False)
-                wrapper_validity(ctx, b, tb, bi, sv)
+                if wrapper_validity(ctx, b, tb, bi, sv):
+                    VALIDATING.add(b.hash)
                 todo.append(b)
                 continue
             if sv[0] == 'mut' and call_name(sv) in ('remove', 'swap_remove') and sv[2] == 0 and node_assertions_of_self(sv[3][0]):
@@ -188,7 +190,7 @@ def check(ctx):
             if parts is not None:
                 ones = [v for k, v in parts if k == 'one']
                 eachs = [v for k, v in parts if k == 'each']
-                verdict = classify_parts(ctx, b, tb, bi, ones, eachs, site)
+                verdict = classify_parts(ctx, b, tb, bi, ones, eachs, site, callee=fn, vec_term=v0)
                 if verdict:
                     continue
             ctx.fail('C04.1', site, 'assertion vector at this node construction site has an unrecognised form (cannot show non-empty / valid / duplicate-free): %s' % fmt(sv),
@@ -211,7 +213,10 @@ def elem_of_self(v):
     return None
 
 
-def classify_parts(ctx, b, tb, bi, ones, eachs, site):
+VALIDATING = set()     # hashes of pass-through wrappers that validate every element of the vector they are given
+
+
+def classify_parts(ctx, b, tb, bi, ones, eachs, site, callee=None, vec_term=None):
     """Judge a node construction whose assertion vector has the given sequence parts. True when the form was understood
     (verdicts recorded), False when it is not one of the known idioms."""
     F = ctx.F
@@ -245,6 +250,26 @@ def classify_parts(ctx, b, tb, bi, ones, eachs, site):
                 ctx.fail('C04.1', site, 'node built over the decoded tail [%d..] of %s without an element-count guard that makes it non-empty' % (k, fmt(X)), key='C04.1|tail|' + b.path)
                 return True
         ctx.ok('C04.1', site, 'decoded tail elements[%d..]: non-empty by the element-count guard (site unreachable for len <= %d)' % (k, k), nontrivial=False)
+        # decoded elements are arbitrary envelopes: they must be validated, by the constructor wrapper they are handed to or here
+        local_ok = False
+        if vec_term is not None:
+            sv_ = strip_sites(detry(vec_term))
+            for g in forall_guards(F, b, tb, [bi], lambda c: strip_sites(detry(c)) == sv_):
+                def patom(name, g=g):
+                    return lambda t: t[0] == 'call' and call_name(t) == name and strip_sites(t[2][0]) == g.elem
+                a1 = g.atoms(patom('is_subject_assertion'))
+                a2 = g.atoms(patom('is_subject_obscured'))
+                if a1 and a2 and not forall_table(g, [a1[0], a2[0]], lambda v_: v_[0] or v_[1]):
+                    local_ok = True
+                    ctx.ok('C04.4', site, 'construction only after every decoded element passed is_subject_assertion(a) | is_subject_obscured(a): %s' % g.describe())
+                    break
+        if local_ok:
+            pass
+        elif callee is not None and callee.hash in VALIDATING:
+            ctx.ok('C04.4', site, 'decoded elements are handed to %s, which validates every element (judged there)' % callee.name, nontrivial=False)
+        else:
+            ctx.fail('C04.4', site, 'decoded elements enter the assertion slots of a node without every one of them being tested assertion-or-obscured (neither here nor in %s)' % (
+                callee.name if callee is not None else 'the constructor'), key='C04.4|decoded|' + b.path)
         for x in ones:
             entering(ctx, b, tb, bi, x, site)
         return True
@@ -324,7 +349,7 @@ def wrapper_validity(ctx, b, tb, bi, param):
     F = ctx.F
     gs = forall_guards(F, b, tb, [bi], lambda c: c == param)
     if not gs:
-        return   # plain pass-through; callers judged
+        return False  # plain pass-through; callers judged (and must validate what they pass)
     site = ctx.site(b, bi)
     problems = []
     for g in gs:
@@ -340,8 +365,9 @@ def wrapper_validity(ctx, b, tb, bi, param):
             problems.append('element validation is not assertion|obscured: %s (%s)' % (bad[:3], g.describe()))
             continue
         ctx.ok('C04.4', site, 'construction only after every element passed is_subject_assertion(a) | is_subject_obscured(a): %s; %s' % (g.describe(), g.info))
-        return
+        return True
     ctx.fail('C04.4', site, 'decoder-side validation is not "every element is assertion|obscured" guarding the construction: %s' % '; '.join(problems), key='C04.4|wrapper|' + b.path)
+    return False
 
 
 def growth(ctx, b, tb, bi, base, new, site):
